@@ -2,6 +2,11 @@ NOTES = ('All checks share bin/check. Fix commits in /repo are listed in known_f
          'Hooks: none committed to /repo; harness code is injected with go build -overlay (tag verif).')
 NA = {}
 TEXT = {
+ 'C02': {
+  'text': 'Theorems (Coq, every file-length vector incl. zero-length and padding files, every piece length and piece count satisfying the acceptance bounds; every section list and block size): NewPieces terminates within |files|+2 iterations per piece without panicking, yields n pieces whose sections chain gap-free and overlap-free through the concatenated files, lengths PL except the last; calculateBlocks yields ordered, disjoint blocks of size (0,bs] whose union is exactly the non-padding bytes (refuted for the pinned code, proved after fix D1). Tied to the Go code by running metainfo.NewInfo+piece.NewPieces and calculateBlocks(bs) on generated layouts biased to boundary coincidences and comparing sections/blocks with the extracted model; monitors recompute chain and tiling from the observed lists.',
+  'note': 'Not yet proved (stated in DESIGN as core/ext): write/read round trip of filesection.Piece, createJobs cover, create-then-verify; these are only exercised where the evidence lists a correspondence kind for them. Trusted: kernel, extraction, harness; zeebo/bencode encodes the generated info dictionaries.',
+  'technique': 'machine-checked proof (Coq): loop invariants over transcribed NewPieces/calculateBlocks + differential correspondence with the Go code',
+ },
  'C16': {
   'text': 'Theorems (Coq, all tier sizes, all success/failure patterns, all interleavings of concurrent announces as load/CAS steps): each announce goes to the member the two-line spec names, every member is reached within one cycle of failures, an answering member keeps being used, indexes stay in range. Tied to internal/tracker/tier.go by running the real Tier under scripted members on generated sequential and concurrent histories and comparing contacted members with the extracted model; proved monitor on the observed members.',
   'note': 'Trusted: Coq kernel, extraction, Go harness, linearizability of sync/atomic. Modelled, not verified: tier.go itself (hand model + differential tie). Announcer retry/back-off and tracker reply parsing parts of C16 are covered only where the kinds listed in the evidence say so.',
